@@ -4,7 +4,7 @@ From V Require Import C11.Model.
 From stdpp Require Import gmap.
 From Coq Require Import ZArith List.
 From V Require Import Base.Codec Base.Res Base.ResCodec Sched.LedgerModel Sched.StmtModel Sched.LedgerCodec
-                      Sched.GangModel Sched.CycleModel Sched.CycleCodec C04.Model.
+                      Sched.GangModel Sched.CycleModel Sched.CycleCodec C04.Model C04.Placed C04.PlacedRun.
 Import ListNotations.
 Open Scope Z_scope.
 
@@ -129,7 +129,8 @@ Fixpoint run_choices (eps : Z) (E : env) (s : sess) (cs : list choice) : list Z 
 Definition run_case (c : c04_case) : list Z :=
   let sp := cs_spec c in
   let '(out, sf) := run_choices (sp_eps sp) (env_of sp (cs_lims c) (cs_clims c)) (sess_of sp) (cs_choices c) in
-  out ++ [-102] ++ eFinal sf.
+  (* -104: the well-formedness hypothesis of the final-session theorems, checked on the session the case starts from *)
+  out ++ [-102] ++ eFinal sf ++ [-104] ++ eBool (wfb (sess_of sp)).
 
 (* ---- the vote alone: ssn.Preemptable / ssn.Reclaimable on an arbitrary candidate list ---- *)
 Record vote_case := mkVC { vc_spec : spec; vc_lims : list qlim_spec; vc_clims : list clim_spec; vc_reclaim : bool;
